@@ -28,13 +28,14 @@ KSite == [x \in {"sub.take_timeout", "sub.store_co", "sub.recheck_state", "sub.r
 SilentStep ==
   \/ (PYieldBack \/ PReadPara) /\ Silent("p") /\ UNCHANGED spun
   \/ Resume /\ Silent("p") /\ UNCHANGED spun
-  \/ (pcP = "park.spin_kernel" /\ spun /\ PSpinPass) /\ Silent("p") /\ spun' = FALSE
   \/ (KAddTimer \/ KSetHandle \/ KKernelOn \/ KKernelOff) /\ Silent("kp") /\ UNCHANGED spun
+\* the load of wait_kernel sits somewhere between the coroutine's resumption and its next hook: silent, not urgent
+LazyStep == pcP = "park.spin_kernel" /\ spun /\ PSpinLoad /\ Silent("p") /\ spun' = (pcP' = "park.spin_yield")
 HookStep ==
   \/ (PCheckLoad \/ PCheckStore \/ PCheckSwap \/ PStoreTimeout \/ PYield \/ PRmHandle) /\ pcP \in HookP /\ L("p", pcP) /\ UNCHANGED spun
   \* the hook park.spin_kernel is passed once, in front of the loop; every turn of the loop is a yield_now (its hook: yield.check_cancel)
   \/ pcP = "park.spin_kernel" /\ ~spun /\ Running /\ spun' = TRUE /\ L("p", "park.spin_kernel") /\ UNCHANGED vars
-  \/ (pcP = "park.spin_kernel" /\ spun /\ PSpinYield) /\ L("p", "yield.check_cancel") /\ UNCHANGED spun
+  \/ PSpinYield /\ L("p", "yield.check_cancel") /\ UNCHANGED spun
   \/ (KTakeTimeout \/ KStoreCo \/ KRecheckState \/ KRecheckTimeout \/ KFastTake \/ KSetCancelCo \/ KRecheckCancel \/ KCTakeSlot \/ KCTakeCo)
        /\ pcK \in DOMAIN KSite /\ L("kp", KSite[pcK]) /\ UNCHANGED spun
   \/ \E u \in Unparkers : (USwap(u) \/ UTake(u)) /\ L(u, pcU[u]) /\ UNCHANGED spun
@@ -52,7 +53,8 @@ TVNext ==
      /\ owed' = init0[23] /\ last' = init0[24] /\ spun' = init0[25]
   \/ /\ tvl <= TVN /\ TVRec[tvl].a1 # "!reset" /\ UNCHANGED init0
      /\ IF ENABLED SilentStep THEN SilentStep /\ tvl' = tvl
-        ELSE HookStep /\ TVMatches(last') /\ tvl' = tvl + 1
+        ELSE \/ HookStep /\ TVMatches(last') /\ tvl' = tvl + 1
+             \/ LazyStep /\ tvl' = tvl
   \* a Tick of the harness on a stale timer entry has no counterpart in the model
   \/ /\ tvl <= TVN /\ TVRec[tvl].a1 = "!tick" /\ ~ENABLED SilentStep /\ tvl' = tvl + 1 /\ UNCHANGED <<tvall, init0>>
   \* the timer thread takes a stale entry (left in the list by an earlier execution or round: its slot is empty): no-op
